@@ -95,6 +95,9 @@ def run_shard(desc, ctx):
                   np.unique(np.r_[keep, edge]).astype(np.int32), slice(None), slice(int(b_[1]) - 3 if len(parts) > 1 else 5, None), -1, int(b_[-2])]
     run_case({'backend': 'flat' if sh % 8 < 6 else 'npy', 'ext': L.FLAT_EXT[sh % 4], 'offset': OFFSETS[sh % 4], 'dtype': DTYPES[sh % 6], 'nc': 2,
               'parts': parts if sh % 8 < 6 else [n_], 'items': long_items, 'cols': [None, [1, 0]]}, ctx)
+    # one read of more than 16 MiB spanning three files
+    if sh == 7:
+        run_case({'kind': 'big_read'}, ctx)
     # recordings made of many files (12 x 3 rows, 40 x 2 rows): every pair of rows as an index list, plus random longer lists
     if sh % 4 in (1, 3):
         parts = [[3] * 12, [2] * 40][sh % 4 // 2] if sh != 5 else [2] * 70        # (70 files: more than any plausible pool of open maps)
@@ -234,10 +237,11 @@ def open_layout(lay, d):
         bounds = np.r_[0, np.cumsum(lay['parts'])].tolist()
     elif be == 'npy':
         p = L.write_npy(d, A)
-        r = call(get_ephys_reader, p if n % 2 else [p], sample_rate=rate, dtype=dt, n_channels=nc)
+        # (the dtype / n_channels keywords describe flat files; an .npy file or an array knows its own)
+        r = call(get_ephys_reader, p if n % 2 else [p], sample_rate=rate, dtype=dt if n % 3 else np.dtype('int8'), n_channels=nc)
         bounds = [0, n]
     elif be == 'array':
-        r = call(get_ephys_reader, A, sample_rate=rate)
+        r = call(get_ephys_reader, A, sample_rate=rate) if n % 2 else call(get_ephys_reader, A, sample_rate=rate, dtype=np.dtype('uint8'))
         bounds = [0, n]
     else:
         fl = dt.kind == 'f'
@@ -247,8 +251,33 @@ def open_layout(lay, d):
     return A, r, bounds, rate
 
 
+def _big_read(ctx):
+    from phylib.io.traces import get_ephys_reader
+    d = scratch_dir('c01b_')
+    try:
+        n, nc = 175000, 64
+        A = (np.arange(n * nc, dtype=np.int64) * 7919 % 65521 - 32000).astype(np.int16).reshape(n, nc)
+        parts = [60000, 45000, 70000]
+        paths = L.write_flat(d, A, parts, ext='.bin')
+        r = call(get_ephys_reader, paths, sample_rate=100., dtype=A.dtype, n_channels=nc)
+        ctx.count(1, cell=('flat', 'int16', 'big_read'))
+        if not r.ok:
+            ctx.violation('open_raised', {'kind': 'big_read'}, 'get_ephys_reader raised %r' % r.exc, {'backend': 'flat'}, tb=r.tb)
+            return
+        for it in (slice(None), slice(100, n - 100), np.arange(0, n, 1)[::1]):
+            rr = call(lambda: r.value[it])
+            if not rr.ok or same(rr.value, A[it]):
+                ctx.violation('read_mismatch' if rr.ok else 'read_raised', {'kind': 'big_read'}, 'a read of %d MiB over three files: %s' % (
+                    A[it].nbytes >> 20, rr.exc if not rr.ok else same(rr.value, A[it])), {'backend': 'flat', 'big_read': True}, tb=rr.tb)
+                return
+    finally:
+        shutil.rmtree(d, ignore_errors=True)
+
+
 def run_case(case, ctx):
     import os
+    if case.get('kind') == 'big_read':
+        return _big_read(ctx)
     d = scratch_dir('c01_')
     cwd0 = os.getcwd()
     try:
@@ -361,7 +390,8 @@ def _run(case, ctx, d):
             r1 = call(lambda: rd[:, c1])
             if not r1.ok or isinstance(r1.value, np.ndarray):
                 continue
-            for c2 in [slice(None, None, -1), slice(1, None), slice(0, max(1, w1 - 1)), [w1 - 1, 0], [-1]]:
+            same_obj = [c1] if (isinstance(c1, slice) or np.asarray(c1).max() < w1) else []      # the very same selector object applied twice
+            for c2 in same_obj + [slice(None, None, -1), slice(1, None), slice(0, max(1, w1 - 1)), [w1 - 1, 0], [-1]]:
                 for it in row_items:
                     e_rows = A[it] if not isinstance(it, (int, np.integer)) else A[int(it)][None, :]
                     exp = e_rows[:, c1][:, c2]
